@@ -125,9 +125,11 @@ func culpritFunc(dump string) string {
 	}
 	// a function that occurs over and over is a runaway recursion: name the most frequent one
 	count := map[string]int{}
-	best := ""
 	for _, fn := range fns {
 		count[fn]++
+	}
+	best := ""
+	for _, fn := range fns {
 		if count[fn] > count[best] || (count[fn] == count[best] && len(fn) > len(best)) {
 			best = fn
 		}
